@@ -73,14 +73,16 @@ func c13Decl(k int) *decl.Decl {
 	cmd := &decl.Cmd{Field: "Cmd", Name: "cmd", SubOptional: true, Cmds: []*decl.Cmd{sub},
 		Opts:   []*decl.Opt{o("Aa", "aa", "", ""), o("Gg", "bb", "", "")},
 		Groups: []*decl.Group{{Field: "SG", Name: "Sub Group", Opts: []*decl.Opt{o("Hh", "hh", "", "hname")}}}}
-	top.Cmds = []*decl.Cmd{cmd}
+	mixed := &decl.Cmd{Field: "Mixed", Name: "MixedCase", Opts: []*decl.Opt{o("Aa", "mx", "", "")},
+		Groups: []*decl.Group{{Field: "MG", Name: "Mixed Group", Opts: []*decl.Opt{o("Ii", "ii", "", "")}}}}
+	top.Cmds = []*decl.Cmd{cmd, mixed}
 	d := (&decl.Decl{Top: top}).Finish()
 	c13Cache[k] = d
 	return d
 }
 
-var c13Sections = []string{"", "Application Options", "application OPTIONS", "Grp", "GRP", "cmd", "cmd.Sub Group", "cmd.sub group", "cmd.sub", "Cmd", "cmd.nope", "sub", "Sub Group"}
-var c13Names = []string{"Aa", "aa", "AA", "aA", "Bb", "bb", "BB", "Cc", "cc", "a", "b", "c", "A", "s", "Ss", "longonly", "Ll", "Dd", "dd", "ns.aa", "ns.ee", "ee", "e", "Ee", "Gg", "zz", "Ff", "ff", "Hh", "hh", "hname", "HNAME", "nope", "Xx", "Yy", "K", "m", "kk", "xx"}
+var c13Sections = []string{"", "Application Options", "application OPTIONS", "Grp", "GRP", "cmd", "cmd.Sub Group", "cmd.sub group", "cmd.sub", "Cmd", "cmd.nope", "sub", "Sub Group", "MixedCase", "mixedcase", "MixedCase.Mixed Group", "MixedCase.mixed group"}
+var c13Names = []string{"Aa", "aa", "AA", "aA", "Bb", "bb", "BB", "Cc", "cc", "a", "b", "c", "A", "s", "Ss", "longonly", "Ll", "Dd", "dd", "ns.aa", "ns.ee", "ee", "e", "Ee", "Gg", "zz", "Ff", "ff", "Hh", "hh", "hname", "HNAME", "nope", "Xx", "Yy", "K", "m", "kk", "xx", "Ii", "mx"}
 
 func init() {
 	body := func(c *explore.Ctx) {
@@ -89,6 +91,7 @@ func init() {
 		ni := c.Choose(len(c13Names))
 		reps := 1 + c.Choose(3)
 		asDefaults := c.Bool()
+		earlier := c.Choose(2) == 1 // the same parser has read an INI file before, in which the option was named by another of its names
 		kind := c13Kinds[k]
 		d := c13Decl(k)
 		section, name := c13Sections[si], c13Names[ni]
@@ -102,8 +105,9 @@ func init() {
 			fmt.Fprintf(&ini, "%s = %s\n", name, kind.Vals[i])
 		}
 		text := ini.String()
+		warmIni := ""
 		c.Describe(func() interface{} {
-			return map[string]interface{}{"type": kind.T.Name, "ini": text, "as_defaults": asDefaults}
+			return map[string]interface{}{"type": kind.T.Name, "ini": text, "as_defaults": asDefaults, "earlier_read_on_same_parser": warmIni}
 		})
 		// model: which option does the entry select?
 		cands, known := ref.SectionOptions(d, section, "Application Options")
@@ -116,6 +120,52 @@ func init() {
 		if b1.Err != nil {
 			c.Fail("setup-error", b1.Err.Error())
 			return
+		}
+		var warmArgv []string
+		if earlier {
+			if sel == nil || asDefaults {
+				c.Skip()
+			}
+			// another name of the selected option, in its own section
+			other := ""
+			for _, cand := range []string{sel.Field, sel.LongNS, sel.Short, sel.IniName} {
+				if cand != "" && !strings.EqualFold(cand, name) {
+					if cs, ok := ref.SectionOptions(d, section, "Application Options"); ok && ref.ResolveIniName(cs, cand) == sel {
+						other = cand
+						break
+					}
+				}
+			}
+			if other == "" {
+				c.Skip()
+			}
+			w0 := kind.Vals[len(kind.Vals)-1]
+			if section != "" {
+				warmIni = "[" + section + "]\n"
+			}
+			warmIni += other + " = " + w0 + "\n"
+			cw := w0
+			if kind.Cli != nil {
+				cw = kind.Cli[len(kind.Cli)-1]
+			}
+			for cc := sel.Owner; cc != nil && cc.Parent != nil; cc = cc.Parent {
+				warmArgv = append([]string{cc.Name}, warmArgv...)
+			}
+			switch {
+			case kind.T.IsFlag() && sel.LongNS != "":
+				warmArgv = append(warmArgv, "--"+sel.LongNS)
+			case kind.T.IsFlag():
+				warmArgv = append(warmArgv, "-"+sel.Short)
+			case sel.LongNS != "":
+				warmArgv = append(warmArgv, "--"+sel.LongNS+"="+cw)
+			default:
+				warmArgv = append(warmArgv, "-"+sel.Short+"="+cw)
+			}
+			if err := flags.NewIniParser(b1.Parser).Parse(bytes.NewReader([]byte(warmIni))); err != nil {
+				c.Fail("earlier-read-rejected", fmt.Sprint(warmIni, err))
+				return
+			}
+			c.Hit("earlier-read")
 		}
 		var err1 error
 		func() {
@@ -174,6 +224,12 @@ func init() {
 			}
 		}
 		b2 := d.BuildTags()
+		if earlier {
+			if wr := runParser(b2, &ref.Config{D: d}, warmArgv, runOpts{}); wr.Err != nil || wr.Panic != nil {
+				c.Fail("harness-equivalent-flags-rejected", fmt.Sprint(warmArgv, wr.Err, wr.Panic))
+				return
+			}
+		}
 		rr := runParser(b2, &ref.Config{D: d}, argv, runOpts{})
 		if rr.Panic != nil || rr.Err != nil {
 			c.Fail("harness-equivalent-flags-rejected", fmt.Sprint(argv, rr.Err, rr.Panic))
@@ -202,8 +258,8 @@ func init() {
 		ShardDepth: 2,
 		Body:       body,
 		Rule: "declaration whose names cross (A's long name = B's field name = C's ini-name up to case; the same field name in the parser, a namespaced group, a command and a sub-subcommand; short-only, long-only and no-ini options; an ini-name inside a command's subgroup) " +
-			"x 15 option types / value notations (incl. map values written in INI quoting, some containing colons, against their unquoted command-line equivalent) x 13 section spellings (global, group description in three casings, command, command.group in two casings, sub-subcommand path, wrong casings and unknown paths) x 39 entry names (every naming of every option in several casings, namespaced long names, unknown) " +
-			"x 1..3 repeated entries x normal / as-defaults mode; oracle: (a) the documented priority ini-name > field > namespaced long > short selects the option, unknown names/sections are errors, (b) differential: a fresh parser given the equivalent --name=value flags must end in the same option struct; " +
+			"x 15 option types / value notations (incl. map values written in INI quoting, some containing colons, against their unquoted command-line equivalent) x 17 section spellings (incl. a command whose name has upper-case letters: command names are matched exactly, group descriptions case-insensitively) (global, group description in three casings, command, command.group in two casings, sub-subcommand path, wrong casings and unknown paths) x 41 entry names (every naming of every option in several casings, namespaced long names, unknown) " +
+			"x 1..3 repeated entries x normal / as-defaults mode x {fresh parser, parser that has already read a file naming the same option by another of its names (a later read replaces, like a later command line)}; oracle: (a) the documented priority ini-name > field > namespaced long > short selects the option, unknown names/sections are errors, (b) differential: a fresh parser given the equivalent --name=value flags must end in the same option struct; " +
 			"distinct = distinct (type, section, name, repetitions, error class, options touched)",
 		Assumptions:  []string{"values without edge blanks", "a flag entry 'name = false' has no command-line equivalent and is not used"},
 		RequiredHits: []string{"selected-by:ini-name", "selected-by:field", "selected-by:long", "selected-by:short", "no-such-option-or-section", "repeated", "as-defaults"},
